@@ -302,7 +302,7 @@ def process_fn(src: str, src_file: str, it: rustscan.Item, dirs: List[Directive]
                 break
             end += 1
         first = src[st[j].start:st[end - 1].end]
-        if re.sub(r'\s+', '', first) not in ('&self', 'self:Arc<Self>'):
+        if re.sub(r'\s+', '', first) not in ('&self', 'self:Arc<Self>', 'self:Pin<&mutSelf>'):
             raise Undecided('receiver-mut: unexpected receiver %r in %s' % (first, info.fn))
         edits.append(Edit(st[j].start, st[end - 1].end, '&mut self', 'real', 'D7'))
         drops.append('D7 receiver `%s` -> `&mut self`' % re.sub(r'\s+', ' ', first))
@@ -454,6 +454,28 @@ def process_fn(src: str, src_file: str, it: rustscan.Item, dirs: List[Directive]
                     raise Undecided('assumed region `%s` of %s no longer has the text its assumed contract was written for' % (pat, info.fn))
             edits.append(Edit(a, st[c].end, '\n'.join(d.payload), 'region:%s:%d' % (info.fn, d.line), 'D5'))
             drops.append('D5 assumed region `%s`' % pat)
+    # --- D5 (expression form): an expression Verus cannot read is replaced by a call of an assumed-contract stub
+    for d in dirs:
+        if d.kind == 'subst':
+            pat = d.arg.strip('"')
+            body_txt = src[st[body_open_i].end:st[body_close_i].start]
+            k = body_txt.find(pat)
+            if k < 0 or body_txt.find(pat, k + 1) >= 0:
+                raise Undecided('lost anchor: expression %r in %s (%s)' % (pat, info.fn, 'absent' if k < 0 else 'ambiguous'))
+            a = st[body_open_i].end + k
+            edits.append(Edit(a, a + len(pat), ' '.join(x.strip() for x in d.payload), 'subst:%s:%d' % (info.fn, d.line), 'D5'))
+            drops.append('D5 assumed expression `%s`' % pat)
+    for d in dirs:
+        if d.kind == 'subst-re':
+            rx = re.compile(d.arg.strip('"'))
+            body_txt = src[st[body_open_i].end:st[body_close_i].start]
+            ms = list(rx.finditer(body_txt))
+            if len(ms) != 1:
+                raise Undecided('lost anchor: expression /%s/ in %s (%d matches)' % (rx.pattern, info.fn, len(ms)))
+            m0 = ms[0]
+            a = st[body_open_i].end + m0.start()
+            edits.append(Edit(a, a + len(m0.group(0)), m0.expand(' '.join(x.strip() for x in d.payload)), 'subst:%s:%d' % (info.fn, d.line), 'D5'))
+            drops.append('D5 assumed expression `%s`' % m0.group(0))
     # --- D6 closure header annotation: `|x| body` -> `<header from the contract> { body }`
     #     (parameter types, named return value, ensures clause and braces; the body tokens are unchanged)
     for d in dirs:
